@@ -90,6 +90,22 @@ func extRoundTrips(c *lib.Ctx) {
 		op := fmt.Sprintf("nts.enc %s %s %s %s %s %s rand=%s", lib.Hex(ntsx.Header(r)), lib.Hex(uid), ntsx.HexList(cs), ntsx.HexList(phs),
 			lib.Hex(key), lib.Hex(pt), lib.Hex(r.Bytes(16)))
 		ans := ntsx.Do(c, op)
+		// The round-trip clause is about packets that fit into nts.MaxPacketLen (1024): the callers
+		// bound the number of cookies accordingly (fix 54b0790); EncodePacket itself cuts an
+		// authenticator that does not fit (copy into the fixed buffer). Three large cookies, three
+		// large placeholders and a large plaintext can exceed the bound: such an op stays in the
+		// correspondence (model and code must agree on the bytes) but is no input of the oracle.
+		need := 48 + 4 + pad4(len(uid)) + 4 + 4 + 16 + pad4(len(pt)+16)
+		for _, x := range cs {
+			need += 4 + pad4(len(x))
+		}
+		for _, x := range phs {
+			need += 4 + pad4(len(x))
+		}
+		if need > 1024 {
+			c.Count("ext:does-not-fit")
+			continue
+		}
 		enc, ok := ntsx.OkHex(ans)
 		if !ok {
 			c.Fail("codec:nts.enc", "encoding a small packet failed: "+ans, []string{op}, nil)
